@@ -78,6 +78,8 @@ func (w *c14World) liveProcs() map[string][]string {
 	return r
 }
 
+func (w *c14World) curGenLocked() *c14Gen { return w.cur }
+
 func (w *c14World) curGen() *c14Gen {
 	w.mu.Lock()
 	defer w.mu.Unlock()
@@ -284,6 +286,21 @@ func c14RunE2E(prop string, cfg c14RunCfg) *c14Result {
 		a := pending[0]
 		pending = pending[1:]
 		fire(a)
+	}
+
+	if cfg.Witness == "hold-giveup" && aborted == "" {
+		// wait until the dispatcher has given up killing the process on
+		// the held instance; then (below) the operator releases the hold
+		w.mu.Lock()
+		for (w.witnessHeld == "" || !w.vms[w.witnessHeld].gaveUpOnHold) && w.polls <= cfg.KFault && time.Now().Before(watchdog) {
+			w.cond.Wait()
+		}
+		if w.witnessHeld != "" && w.vms[w.witnessHeld].gaveUpOnHold {
+			held[w.witnessHeld] = true
+		} else {
+			aborted = "witness scenario: the dispatcher never gave up killing the process on the held instance (precondition not reached)"
+		}
+		w.mu.Unlock()
 	}
 
 	// ---------------- calm: no new faults from here on
@@ -629,6 +646,9 @@ func (l *c14Log) historyLockedVM(vm string, max int) string { return l.history(v
 func c14Entry(t *testing.T, prop string) {
 	run := verifkit.Start(t, prop)
 	defer run.Finish()
+	if prop == "C15" {
+		defer c15Witness(t, run)
+	}
 	n := run.N(6, 36)
 	run.Cases("e2e-"+prop, n, func(i int, rng *verifkit.Rand) {
 		cfg := c14GenCfg(rng, run.Thorough())
@@ -664,6 +684,31 @@ func c14Entry(t *testing.T, prop string) {
 			run.Sample(cfg)
 		}
 		t.Logf("%s run %d: containers=%d starts=%d events=%d findings=%d inconclusive=%v feature=%s", prop, i, cfg.Containers, res.starts, res.events, len(res.findings), res.inconcl, res.feature)
+	})
+}
+
+// c15Witness: deterministic reproduction of the finding
+// C15-unkillable-giveup-during-hold-never-drained (see known_findings.json).
+func c15Witness(t *testing.T, run *verifkit.Run) {
+	run.Cases("e2e-C15-witness-hold-giveup", 1, func(i int, rng *verifkit.Rand) {
+		cfg := c14WitnessCfg("hold-giveup")
+		run.Input(cfg, true)
+		res := c14RunE2E("C15", cfg)
+		run.Eval(res.evals["C15"])
+		for _, f := range res.findings {
+			if strings.HasPrefix(f.sig, "C15:") {
+				run.Violation(f.sig, f.detail, cfg)
+			}
+		}
+		for _, s := range res.inconcl {
+			if !strings.HasPrefix(s, "C14-only: ") {
+				run.Inconclusive("C15 witness hold-giveup: " + s)
+			}
+		}
+		run.Count("witness_hold_giveup_runs", 1)
+		run.Count("witness_dispatcher_gave_up_kill_while_instance_on_hold", res.counters["dispatcher_gave_up_kill_while_instance_on_hold"])
+		run.Feature("witness:hold-giveup")
+		t.Logf("C15 witness hold-giveup: starts=%d findings=%d inconclusive=%v", res.starts, len(res.findings), res.inconcl)
 	})
 }
 
